@@ -5,7 +5,7 @@ TIER=${1:-thorough}; SEED=${2:-7}; JOBS=${3:-16}; shift 3 2>/dev/null
 IDS=${@:-$(/venv/bin/python -c "import json;print(' '.join(c['property_id'] for c in json.load(open('MANIFEST.json'))['checks']))")}
 mkdir -p soak_logs
 for id in $IDS; do
-  VERIF_REPLAY_DIR=$(pwd)/soak_logs/replays ./check $id --tier $TIER --seed $SEED --jobs $JOBS --no-evidence > soak_logs/${id}_${TIER}_$SEED.log 2>&1; c=$?
+  VERIF_REPLAY_DIR=$(pwd)/soak_logs/replays ./check $id --tier $TIER --seed $SEED --jobs $JOBS --no-evidence ${VERIF_SOAK_BUDGET:+--budget-s $VERIF_SOAK_BUDGET} > soak_logs/${id}_${TIER}_$SEED.log 2>&1; c=$?
   echo "$id tier=$TIER seed=$SEED exit=$c $(grep -E 'runs completed' soak_logs/${id}_${TIER}_$SEED.log | tail -1)"
   [ $c -ne 0 ] && grep -E "VIOLATION|class=|HARNESS|  " soak_logs/${id}_${TIER}_$SEED.log | head -8
 done
